@@ -173,7 +173,7 @@ def tlc(module, cfg=None, *, cwd=None, workers=1, simulate=None, depth=None, see
         m = re.match(r"^The number of states generated: (\d+)", ln)
         if m:
             r.generated = int(m.group(1))
-            r.distinct = max(r.distinct, 1)
+            r.distinct = r.generated      # simulation mode: states visited (TLC does not deduplicate them)
         m = re.match(r"^<(\w+) line \d+, col \d+ to line \d+, col \d+ of module (\w+)>: (\d+):(\d+)", ln)
         if m:
             r.coverage[m.group(1)] = r.coverage.get(m.group(1), 0) + int(m.group(4))
@@ -185,7 +185,9 @@ def tlc(module, cfg=None, *, cwd=None, workers=1, simulate=None, depth=None, see
         verdict_markers = ("Invariant ", "is violated", "Postcondition", "POSTCONDITION", "Deadlock reached",
                            "Temporal properties were violated", "Action property", "Assumption")
         if not any(k in low for k in verdict_markers):
-            raise ToolError("TLC failed on %s:\n%s" % (module, out[-5000:]))
+            i = out.find("Error:")
+            head = out[i:i + 1500] if i >= 0 else ""
+            raise ToolError("TLC failed on %s:\n%s\n...\n%s" % (module, head, out[-1500:]))
         r.ok = False
     else:
         r.ok = "Model checking completed. No error has been found." in out or "Finished in" in out \
